@@ -351,9 +351,29 @@ func samePlacement(p1, p2 *placement) bool {
 	return true
 }
 
+// originImage is an image moved so that its bounds start at (0, 0)
+type originImage struct {
+	image.Image
+	min image.Point
+}
+
+func (o originImage) Bounds() image.Rectangle {
+	return o.Image.Bounds().Sub(o.min)
+}
+
+func (o originImage) At(x int, y int) color.Color {
+	return o.Image.At(x+o.min.X, y+o.min.Y)
+}
+
 // Resizes an image to fit within the provided rectangle (as cells). If the
-// image already fits, it won't be resized
+// image already fits, it won't be resized. The bounds of the returned image
+// start at (0, 0)
 func resizeImage(img image.Image, w int, h int, cellPixW int, cellPixH int) image.Image {
+	if min := img.Bounds().Min; min != (image.Point{}) {
+		// eg a SubImage: the encoders address pixels from (0, 0) and
+		// take the size of the image from Bounds().Max
+		img = originImage{img, min}
+	}
 	wPix := img.Bounds().Max.X
 	hPix := img.Bounds().Max.Y
 	// Looks complicated but we're just calculating the size of the
